@@ -48,7 +48,17 @@ fn run_main(asm: &uiua::Assembly, sentinels: &[uiua::Value], args: &[i64]) -> Re
     for x in args {
         env.push(*x as f64);
     }
-    match catch(|| env.run_asm(asm.clone()).and_then(|_| env.call(&mainf)).map_err(|e| e.to_string())) {
+    uiua::verif::set_frame_monitor(true);
+    let _ = uiua::verif::take_frame_violations();
+    let res = catch(|| env.run_asm(asm.clone()).and_then(|_| env.call(&mainf)).map_err(|e| e.to_string()));
+    uiua::verif::set_frame_monitor(false);
+    // the frame hook: at every return and every failure point of every function / operand the values
+    // beneath its arguments, the context stack (where no context effect is claimed) and the hidden stacks
+    // must be what they were
+    if let Some(v) = uiua::verif::take_frame_violations().into_iter().next() {
+        return Err(format!("FRAME-MONITOR: {v}"));
+    }
+    match res {
         Ok(Ok(())) => {
             let d = uiua::verif::depths(&env);
             Ok((env.take_stack(), d))
@@ -189,7 +199,7 @@ fn main() {
                                 handler_ran += 1;
                                 a == b && da == db
                             }
-                            (Err(_), Err(_)) => true,
+                            (Err(a), Err(b)) => !a.starts_with("FRAME-MONITOR") && !b.starts_with("FRAME-MONITOR") && !a.starts_with("PANIC") && !b.starts_with("PANIC"),
                             _ => false,
                         };
                         if !same {
